@@ -29,6 +29,8 @@ C09_OPS = {"quantize", "tointx", "tointv", "ceil", "floor"}
 
 
 def attr_c01(ev, names):
+    if fam(ev, "t") and ev.get("tk") == "ctxparse":
+        return any_in(names, {"cp-val", "panic"})
     if not fam(ev, "a"):
         return False
     if ev["op"] in C01_OPS or (ev["op"] == "reduce" and ev["ctx"]["p"] == 0):
@@ -65,7 +67,7 @@ def attr_c19(ev, names):
 PROPS = {
     "C01": dict(
         mc=[("MC_BigNat", None), ("MC_Round", None)],
-        drivers=["arithS", "arithL"],
+        drivers=["arithS", "arithL", "ctxparse"],
         attr=attr_c01,
         rule="every recorded Add/Sub/Mul/Quo/Abs/Neg/Round call (domain S from the spec, seeded domain L) is judged by "
              "Spec_<Op> = RoundOnce(exact result); an event is non-trivial when its result is finite or overflowed "
@@ -157,5 +159,50 @@ PROPS["C19"] = dict(
          "sparse to 1300) of both signs, seeded values to 4096 bits; Reduce on S and trailing-zero-heavy seeded operands",
 )
 
-HOOK_COMMITS = []
+def attr_t(tks, nameset):
+    def f(ev, names):
+        return fam(ev, "t") and ev.get("tk") in tks and any_in(names, nameset)
+    return f
+
+
+PROPS["C14"] = dict(
+    mc=[("MC_Text", None)],
+    drivers=["parse", "format"],
+    attr=attr_t({"parse", "text", "format"}, {"accept", "nilret", "parse-val", "text", "format", "panic"}),
+    rule="parsing: every string of length <=4 (thorough 5) over a 16-symbol alphabet, grammar sentences and their single/"
+         "double character mutations, keyword neighbours, limit cases, seeded bytes, through SetString/NewFromString/"
+         "UnmarshalText/Scan, judged by ParseSpec; formatting: every Text/String/Marshal/Value/verb form judged by TextOf "
+         "and FmtPad",
+)
+PROPS["C13"] = dict(
+    mc=[("MC_Text", None)],
+    drivers=["format", "codec"],
+    attr=lambda ev, names: (fam(ev, "t") and ev.get("tk") == "text" and any_in(names, {"rt", "panic"}))
+    or (fam(ev, "cv") and ev.get("ck") in ("codec", "setfloat")),
+    rule="every text form of S, boundary and seeded decimals is parsed back and compared with the original (relational); "
+         "Compose(Decompose) and float64 round trips judged by Conv",
+)
+
+PROPS["C17"] = dict(
+    mc=[("MC_BigNat", None)],
+    drivers=["conv"],
+    attr=lambda ev, names: fam(ev, "cv") and ev.get("ck") in ("int64", "setint", "float64", "modf"),
+    rule="Int64 on S, on coefficients around MaxInt64/MinInt64 x 10^k with trailing-zero and positive-exponent forms and "
+         "seeded values judged by Int64Spec; New/SetInt64/SetFinite/NewWithBigInt/Scan(int64) on boundary and seeded "
+         "int64; Modf with every nil/alias pattern judged by ModfOK; Float64 judged by NearestFloat over exact dyadic rationals",
+)
+
+PROPS["C16"] = dict(
+    mc=[("MC_BigNat", None), ("MC_BigInt", None)],
+    drivers=["bigint"],
+    attr=lambda ev, names: fam(ev, "bh"),
+    rule="histories of BigInt method calls on three registers (every alias pattern, inline->heap->inline transitions) run in "
+         "lock-step with a math/big.Int mirror: the arithmetic core is judged by the spec's own signed-integer semantics "
+         "(which thereby also judges the mirror), all other methods by equality with the mirror; zero-not-negative, frame "
+         "and representation invariants on every register after every step (representation via the verif hook)",
+    level_note="Trusted: TLC, spec/BigIntM.tla semantics for the core, math/big as the reference for the long tail (inherent in "
+               "the property's wording), the VerifRepr hook. Bounded exploration.",
+)
+
+HOOK_COMMITS = ["9935482"]
 NOT_YET = {}
